@@ -213,6 +213,9 @@ template <class T>
 IMATH_HOSTDEVICE IMATH_CONSTEXPR14 inline bool
 Interval<T>::intersects (const Interval<T>& interval) const IMATH_NOEXCEPT
 {
+    // An empty interval contains no point, so it intersects nothing
+    if (isEmpty () || interval.isEmpty ()) return false;
+
     return interval.max >= min && interval.min <= max;
 }
 
